@@ -9,7 +9,10 @@ Tie
     locate.find_duplicates / flippv / index2bool / index2slice / mat_intersect / list_intersect /
     merge_lists / find_subseq on integer data (index vectors and exception kinds compared exactly);
     n2p.make_uset with coordinates, n2p.upasetpv / upqsetpv on generated nas2cam-like dictionaries
-    (harness/props/c18_nas.py) and on the nas2cam files of pyYeti's own tests.
+    (harness/props/c18_nas.py) and on the nas2cam files of pyYeti's own tests;
+    n2p.formtran / formulvs / formdrm / addulvs on those dictionaries completed with small integer got / goq / gm /
+    pha / phg matrices (harness/props/c18_tran.py: matrices, output DOF and exception kinds compared exactly), and
+    the table n2p.usetprt returns.
 Oracle (model-free): the set identities, look-up contract and defining equations restated on the
 public API with the documented membership table written out by hand below.
 """
@@ -23,13 +26,16 @@ import numpy as np
 from runner import Infra, TieBroken
 
 ID = "C18"
-LEAN_MODULES = ["PyYetiVerif.Props.C18", "PyYetiVerif.Props.C18Up", "PyYetiVerif.Props.C18Idx", "PyYetiVerif.Props.C18Xyz", "PyYetiVerif.Audit.C18"]
+LEAN_MODULES = ["PyYetiVerif.Props.C18", "PyYetiVerif.Props.C18Up", "PyYetiVerif.Props.C18Idx", "PyYetiVerif.Props.C18Xyz",
+                "PyYetiVerif.Props.C18Tran", "PyYetiVerif.Props.C18Ulvs", "PyYetiVerif.Props.C18Prt", "PyYetiVerif.Props.C18Cyc",
+                "PyYetiVerif.Audit.C18"]
 AUDIT_FILE = "PyYetiVerif/Audit/C18.lean"
 THEOREMS = [
     "PyYetiVerif.C18." + n
     for n in (
         "base_sets_disjoint superset_is_union superset_is_union_bitwise user_sets_separate inSet_subword table_partition mksetpv_refuses_iff mksetpv_spec mksetpv_named expanddof_digits expanddof2_spec lookup_sound lookup_complete mkdofpv_strict_iff mkdofpv_spec mkdofpv_positions mkdofpv_set mat_intersect_spec find_subseq_spec list_intersect_spec flippv_spec index2bool_spec normIndex_spec find_vals_spec find_rows_spec find_unique_spec find_duplicates_spec index2slice_cases index2slice_spec merge_lists_spec merge_lists_inserts mkusetmask_plus mksetpv_plus make_uset_sets make_uset_accepts make_uset_sets_partial make_uset_split_rows make_uset_ids make_uset_coords_partial upasetpv_spec scatter_spec upqsetpv_length upqsetpv_one_upstream qupOwn_spec "
-        "upqsetpv_fuel_stable upqsetpv_fuel_suffices upqsetpv_cycle_diverges cyclic_not_acyclic QConn_iff upqsetpv_spec canFlag_of_flagged separate_of_check upqIdx_eq_upasetpv upasetpv_perm mat_intersect_order mat_intersect_keep1 mat_intersect_keep2 mat_intersect_keep0 mat_intersect_keep_other findse_spec findse_find? nodeIds_spec nodeIds_make xyz_triple_exact find_xyz_triples_exact"
+        "upqsetpv_fuel_stable upqsetpv_fuel_suffices upqsetpv_cycle_diverges cyclic_not_acyclic QConn_iff upqsetpv_spec canFlag_of_flagged separate_of_check upqIdx_eq_upasetpv upasetpv_perm mat_intersect_order mat_intersect_keep1 mat_intersect_keep2 mat_intersect_keep0 mat_intersect_keep_other findse_spec findse_find? nodeIds_spec nodeIds_make xyz_triple_exact find_xyz_triples_exact "
+        "formtran_partition_identity formtran_aset_identity formtran_columns_are_target_set ulvsPath_spec ulvsLoop_chain formulvs_chain_is_product formulvs_noshortcut formulvs_cases formdrm_is_rows_of_formtran formdrm_same_se addulvs_consistent memberCol_spec usetprt_table_is_partition_listing mask_expression_is_union mask_expression_members mask_expression_append mask_expression_absorbs mkdofpv_expression find_subseq_mem_iff find_subseq_errors find_rows_other_length mat_intersect_duplicates index_helpers_refuse_together upqsetpv_never_returns_of_progress upqsetpv_cyclic_diverges"
     ).split()
 ]
 TRUSTED = [
@@ -54,6 +60,14 @@ TRUSTED = [
     "where a square root occurs); the model reports `borderline` when two sides are within 1e-9 (relative) and those "
     "inputs are skipped; a non-singular block on the grid 1/16 with entries up to 128 has cond < 1e12, so `cond > 1/eps` "
     "is `det = 0` there",
+    "formtran / formulvs / formdrm / addulvs: numpy fancy-index assignment (`tran[rows, cols] = block`, later column "
+    "wins), `np.ix_` on boolean vectors (= their nonzero() indices), `np.dot` with the scalar 1.0, `np.any(gmo, 0)`, "
+    "pandas `.iloc[rows, :0].reset_index()` are modelled (setCols / takeIdx / dotU / anyCols) and correspondence-checked; "
+    "matrix entries are small integers so that every float64 product is exact; RuntimeWarnings (got / goq absent) are "
+    "not compared; harness/props/c18_tran.py computes the oracle's reference displacements from the defining relations "
+    "u_o = GOT u_t + GOQ u_q, u_m = GM u_n, u_s = 0 level by level (never through formtran or the Lean model)",
+    "the `[id, dof]` rows compared by locate.mat_intersect inside formtran are two-element integer lists in the driver "
+    "(lexicographic order); the theorems are stated for every linearly ordered row type",
     "n2p._findse / n2p._get_node_ids are private helpers: they are compared directly while they exist (a refactoring "
     "that removes them skips those two streams; upasetpv / upqsetpv, which use them, stay compared)",
 ]
@@ -68,7 +82,12 @@ RULE = (
     "without q-set, boundary grids shared by two upstream SEs), each also with one inconsistency (16 kinds: missing "
     "entries, out-of-range / negative / short / permuted maps, scale != 1, dropped / extra / repeated dnids, short "
     "upids, selist rows dropped / repeated, a cyclic selist), the two dictionaries of the Lean examples, plus the three "
-    "nas2cam files of pyYeti's own tests; selists with repeated / absent SEs for _findse, tables with rows removed for "
+    "nas2cam files of pyYeti's own tests; the same generated dictionaries completed with integer got / goq / gm (also "
+    "absent got / goq, gm independent of the o-set) and phg or pha (+ gm) for the residual: formtran on the residual "
+    "(gset / phg / pha) and on 1-2 upstream SEs with requests of 1-D ids, component lists, a-set-only DOF, repeated and "
+    "missing DOF; formulvs from every upstream SE to the residual and to an intermediate SE with random keepcset / "
+    "shortcut / gset; formdrm; addulvs with and without an `ulvs` entry already stored; usetprt(0, uset, printsets) with "
+    "'*', the default, and random lists (upper case, blanks, repeated and unknown names); selists with repeated / absent SEs for _findse, tables with rows removed for "
     "_get_node_ids; mat_intersect with keep 0/1/2/3/5 on distinct rows in shuffled and descending order; rigid-body "
     "matrices for find_xyz_triples on the grid 1/16 (1-4 nodes at quarter coordinates, signed-permutation / sheared / "
     "non-orthogonal local systems, scales 1 2 3 4 10, rotation rows, deleted rows, perturbed rotation entries, tol 0.01 "
@@ -86,6 +105,11 @@ ASSUMPTIONS = [
     "(upqsetpv_fuel_suffices); on a cyclic selist the model's `.recursion` is compared with Python's RecursionError "
     "(a call chain longer than len(selist)+1 repeats an SE, and the routine is a function of the SE id alone); maps hold "
     "integer-valued floats; make_uset coordinates are copied, not computed (integer-valued xyz in the correspondence)",
+    "formtran / formulvs / formdrm / addulvs: the stored matrices have the shapes of their sets (got |o| x |t|, goq "
+    "|o| x |q|, gm |m| x |n|, pha |a| x k, phg |g| x k) and hold integers; the selist path from seup reaches sedn "
+    "(otherwise the real `while True` loop ends in a KeyError or never ends: the model's fuel selist.length+1, reply "
+    "`fuel`, is never compared); formtran_partition_identity assumes that no DOF is in the t-set and the q-set at once "
+    "(hdis; true for every table of base-set words)",
     "upqsetpv_spec: the dictionary has separate connections (Separate; decidable test separateB, evaluated by the "
     "driver on every generated dictionary and on the nas2cam files of pyYeti's tests)",
 ]
@@ -102,16 +126,30 @@ PARTIAL = (
     "and on the three nas2cam files); outside it - a later upstream SE overwriting the flag of an earlier one at a "
     "shared place (counterexample overlapNas: the hypothesis is necessary), numpy broadcasting of a one-element flag "
     "vector - the routine is modelled and correspondence-checked, nothing is claimed. Recursion: proved that the fuel "
-    "selist.length+1 is never used up on an acyclic selist and that two SEs naming each other use up every fuel; that "
-    "every other cyclic selist makes the real code recurse for ever is argued (pigeonhole), not proved, and tied by the "
+    "selist.length+1 is never used up on an acyclic selist, and (upqsetpv_cyclic_diverges, pigeonhole) that a model run "
+    "which uses up that fuel returns a value at no fuel at all - the unbounded recursion of the real code cannot "
+    "return; that Python then ends it with RecursionError (rather than by a look-up error first) is tied by the "
     "recursion-error branch. n2p.find_xyz_triples is modelled with exact rational decisions and proved on exact data "
     "(find_xyz_triples_exact: a matrix made of x, y, z triples of nodes in orthogonal local systems at any scale - every "
     "row is marked, with the node's location and scale); on inexact data (entries within the tolerances, rotation rows, "
     "missing rows - the documented way the routine can be tricked) it is tied by the correspondence only, inputs with a "
     "comparison within 1e-9 of its threshold or with a singular window of equal column norms are skipped and counted, "
-    "and cond(T1) > 1/eps is modelled as det T1 = 0. formtran / formulvs / formdrm / addulvs (matrix routines built on "
-    "the set vectors) and usetprt (text) are not modelled. Float / mixed int-float inputs are dyadic (k/4) and modelled over "
-    "scaled Int; non-dyadic floats (rounding in tol*max, correlate, abs(diff) <= tol) are outside the exact model"
+    "and cond(T1) > 1/eps is modelled as det T1 = 0. Matrix routines: formtran (se != 0) is proved row by row for the "
+    "t-, q-, o- and s-set (formtran_partition_identity, formtran_aset_identity) but for an m-set DOF only that its row "
+    "is a row of the m-set block of the right width - that this block equals GM composed with the rows of the n-set "
+    "(`composition = direct transform`, incl. the `np.any(gmo, 0)` column pruning) is tied by the oracle's physical "
+    "reference and the correspondence, not proved; _formtran_0 (residual: gset / phg / pha branches) is modelled and "
+    "tied, only its final re-ordering step is covered by a theorem (reorder_spec); the rows picked by "
+    "`iddof[<positions within the g-set>]` are table rows only when every row of the table is in the g-set (no extra "
+    "points) - the theorems state the code's indexing literally, and the residual with an extra point in front of "
+    "a-set DOF is reported as finding formtran-se0-pha-extra-point-rows; a DOF named twice with gset=True is finding "
+    "formtran-se0-gset-repeated-dof. formulvs / formdrm / addulvs are proved as products / rows / stored entries of "
+    "formtran levels (formulvs_chain_is_product: left-to-right product along the tree path; associativity of the list "
+    "matrix product, i.e. ULVS(a->c) = ULVS(a->b) ULVS(b->c), is checked by the oracle only). usetprt: the returned "
+    "table is proved (usetprt_table_is_partition_listing), the printed text is not modelled. nas2cam files of pyYeti's "
+    "tests hold non-integer matrices: the matrix routines are not compared on them. Float / mixed int-float inputs are "
+    "dyadic (k/4) and modelled over scaled Int; non-dyadic floats (rounding in tol*max, correlate, abs(diff) <= tol) "
+    "are outside the exact model"
 )
 MANIFEST = {
     "level_text": "proof: lattice theorems decided on the table generated from the source; mksetpv (also with '+' "
@@ -124,13 +162,24 @@ MANIFEST = {
     "flag = connected to an upstream q-set DOF, by induction on the recursion) for dictionaries with separate "
     "connections, termination of its recursion exactly on acyclic selists, the places of its connections = upasetpv, "
     "upasetpv with a permutation map is a permutation of the boundary rows; _findse, _get_node_ids; find_xyz_triples "
-    "finds every node of a matrix of exact triples (location and scale); exact correspondence",
+    "finds every node of a matrix of exact triples (location and scale); formtran (se != 0): one row per requested "
+    "DOF in request order, unit vector at the a-set column for t- and q-set DOF, stored got / goq row scattered to the "
+    "t- and q-columns for o-set DOF, zero for s-set DOF, columns = the a-set (any ring of entries, any linear order of "
+    "the [id, dof] rows); formulvs = left-to-right product of the per-level formtran matrices along the tree path for "
+    "any depth and any keepcset / shortcut / gset; formdrm = rows of formtran times ULVS; addulvs stores exactly "
+    "formulvs; the table of usetprt is the listing of the requested sets (each DOF once, table order, numbered per "
+    "set); mkusetmask expressions are unions (idempotent, commutative, associative), mkdofpv on expressions; "
+    "find_subseq membership form without wrap / clip; upqsetpv on a cyclic selist never returns (pigeonhole); exact "
+    "correspondence",
     "level_note": "library kernels (argsort, searchsorted, correlate, pandas / numpy indexing and index assignment, "
     "CPython slicing) are modelled and correspondence-checked; upqsetpv outside `Separate` (a later upstream SE "
     "overwriting an earlier flag at a shared place, broadcasting) is tied (correspondence + construction oracle) but "
     "nothing is claimed; make_uset coordinates with split component lists (undocumented) are only modelled; "
     "find_xyz_triples on inexact data (tolerance rule) is tied numerically (exact pv, coordinates / scales to 1e-9) but "
-    "not proved; the matrix routines (formtran, formulvs, formdrm, addulvs) are not modelled",
+    "not proved; formtran's m-set rows (GM composed with the n-set rows) and _formtran_0 (residual) are modelled and "
+    "tied (exact correspondence on integer matrices + an oracle that recomputes the displacements from the defining "
+    "relations) but not proved; the printed text of usetprt is not modelled; matrix routines are not compared on the "
+    "(non-integer) nas2cam test files",
     "technique": "Lean 4 proof about executable models + ast translator for mkusetmask + exact differential "
     "correspondence + model-free oracle",
 }
@@ -777,10 +826,19 @@ def _tran_streams(ctx, cs, masks):
                 sedn = rng.choice(path)
                 py, kind, sec, rt = T.gen_request(rng, nas["uset"][c], nmask)
                 gset = sedn == 0 and rng.random() < 0.3
-                r = _call(n2p.formdrm, nas, c, py, sedn, gset)
+                n3, usec3 = nas, "none"
+                if sedn == 0 and rng.random() < 0.4:
+                    # an `ulvs` entry already stored (formdrm asks formulvs with shortcut=True): twice the true matrix
+                    r0_ = _call(n2p.formulvs, nas, c, 0, True, False, False)
+                    if r0_[0] == "ok" and np.ndim(r0_[1]) == 2:
+                        n3 = _copy_nas(nas)
+                        n3["ulvs"] = {c: 2.0 * np.asarray(r0_[1])}
+                        usec3 = T.ulvs_section(n3)
+                        ctx.count("formdrm:stored-ulvs")
+                r = _call(n2p.formdrm, n3, c, py, sedn, gset)
                 impl = _tran_reply(r)
                 br = "formdrm:" + (r[0] if r[0] != "ok" else ("same-se" if sedn == c else "downstream"))
-                cs.add("formdrm", "fdrm %d %d %d %s | %s | none | %s" % (c, sedn, gset, kind, secs, sec), impl,
+                cs.add("formdrm", "fdrm %d %d %d %s | %s | %s | %s" % (c, sedn, gset, kind, secs, usec3, sec), impl,
                        dict(plain, what="formdrm", seup=c, sedn=sedn, dof=py, gset=gset), nontrivial=r[0] == "ok", branch=br)
             # ---- addulvs (on a copy: it changes the dictionary), with and without an `ulvs` entry already there ----
             pick = rng.sample(ses, rng.randint(1, min(3, len(ses))))
@@ -1395,6 +1453,15 @@ def correspondence(ctx):
         "xyz-input:sheared", "xyz-input:perturbed", "xyz-input:exact-only", "xyz-input:row-deleted", "xyz-input:non-orthogonal",
         "mat_intersect-order:unsorted-values", "mat_intersect-order:keep0", "mat_intersect-order:keep1",
         "mat_intersect-order:keep2", "mat_intersect-order:keep-other",
+        "formtran:general", "formtran:all-a-set", "formtran:value-error", "formtran:repeated-dof",
+        "formtran-row:b", "formtran-row:o", "formtran-row:m", "formtran-row:q", "formtran-row:s", "formtran-row:c",
+        "formtran-row:r", "formtran0:gset", "formtran0:phg", "formtran0:pha", "formtran0:runtime-error",
+        "formtran0:value-error", "tran-input:goq-absent", "tran-input:got-absent", "tran-input:gm-no-o",
+        "formulvs:depth-1", "formulvs:depth-2", "formulvs:depth-3", "formulvs:one", "formulvs:value-error",
+        "formulvs:keepcset-false", "formulvs:gset", "formulvs:to-upstream-se", "formulvs:runtime-error",
+        "formulvs:index-error", "formdrm:same-se", "formdrm:downstream", "formdrm:value-error", "formdrm:stored-ulvs",
+        "addulvs:new", "addulvs:existing-entry", "addulvs:shortcut-keeps-stored",
+        "usetprt:all-rows", "usetprt:rows-dropped", "usetprt:none",
     ] + (["findse:absent", "findse:once", "findse:repeated"] if ctx.extra["private_helpers_present"]["_findse"] else [])
       + (["nodeids:one-per-node", "nodeids:fewer"] if ctx.extra["private_helpers_present"]["_get_node_ids"] else [])
       + ["nas-damage:" + w for w in __import__("props.c18_nas", fromlist=["DAMAGES"]).DAMAGES])
@@ -1929,11 +1996,19 @@ def _oracle_tran(ctx, inp):
             fam = tag + "-wrong-rows"
             if len(set(req)) < len(req) and se == 0 and gset:
                 fam = "formtran-se0-gset-repeated-dof"
+            extra_pt = se == 0 and not gset and 0 not in nas["phg"] and "e" in L
             if r[0] != "ok":
-                ctx.fail(tag + "-raises", "%s raises %s on a request whose DOF are all recoverable" % (what, r[0]),
+                ctx.fail("formtran-se0-pha-extra-point-rows" if extra_pt else tag + "-raises",
+                         "%s raises %s on a request whose DOF are all recoverable" % (what, r[0]),
                          full_inp, r[0], "a matrix with one row per requested DOF")
                 return
+            if extra_pt:
+                fam = "formtran-se0-pha-extra-point-rows"
             tran, od = r[1]
+            if np.ndim(tran) and np.asarray(tran).shape[1] != x.shape[0]:
+                ctx.fail(tag + "-wrong-columns", "the columns of the result must be the a-set (modal / g-set) DOF of the SE",
+                         full_inp, list(np.asarray(tran).shape), [len(req), int(x.shape[0])])
+                return
             got = np.asarray(tran) @ x if np.ndim(tran) else x * tran
             if [tuple(int(v) for v in k) for k in np.asarray(od).reshape(-1, 2).tolist()] != req or \
                     got.shape != want.shape or not np.array_equal(got, want):
@@ -1957,6 +2032,34 @@ def _oracle_tran(ctx, inp):
                         ctx.fail("formulvs-chain-not-the-product", "ULVS(seup -> sedn) must be ULVS(seup -> p) @ ULVS(p -> sedn)",
                                  full_inp, ul.tolist(), prod.tolist())
                         return
+            # (1b) keepcset=False: the product of the single-level matrices (each verified by (2) when it is asked for
+            #      with keepcset=True) after the c-set rows (upstream SE) and columns (downstream SE, not the residual)
+            #      are struck out - by the documented membership, not by mksetpv
+            if not kc:
+                path = [c]
+                while path[-1] != sedn and path[-1] in parent:
+                    path.append(parent[path[-1]])
+                prod, okp = None, path[-1] == sedn
+                for a_, b_ in zip(path, path[1:]):
+                    r1 = _call(n2p.formulvs, nas, a_, b_, True, False, gset)
+                    if r1[0] != "ok" or np.ndim(r1[1]) != 2:
+                        okp = False
+                        break
+                    La = [t for t in T._letters(nas["uset"][a_], masks) if t in "qrcb"]
+                    Lb = [t for t in T._letters(nas["uset"][b_], masks) if t in "qrcb"]
+                    m1 = np.asarray(r1[1])
+                    if m1.shape[0] != len(La) or (b_ != 0 and m1.shape[1] != len(Lb)):
+                        okp = False  # skipped boundary DOF (maps shorter than the a-set): the masks do not fit
+                        break
+                    m1 = m1[[i for i, t in enumerate(La) if t != "c"]]
+                    if b_ != 0:
+                        m1 = m1[:, [i for i, t in enumerate(Lb) if t != "c"]]
+                    prod = m1 if prod is None else prod @ m1
+                if okp and prod is not None and (prod.shape != ul.shape or not np.array_equal(prod, ul)):
+                    ctx.fail("formulvs-keepcset-false-wrong", "with keepcset=False the c-set rows of the upstream SE and the "
+                             "c-set columns of the downstream SE are struck out of every level before multiplying",
+                             full_inp, ul.tolist(), prod.tolist())
+                    return
             # (2) the physical relation (all sets kept)
             if kc:
                 if sedn == 0:
@@ -2037,6 +2140,30 @@ def _oracle_usetprt(ctx, inp):
     if got != want or (t is not None and names != req):
         ctx.fail("usetprt-table-not-the-partition-listing", "every DOF of the requested sets exactly once, in table order, "
                  "numbered within each set; columns in the documented order", finp, [names, got], [req, want])
+
+
+def _probe_findings(ctx):
+    """two fixed inputs on which the unchanged code contradicts `{DOF} = Tran * {…}` (found while the matrix routines
+    were modelled; each under its own family so that known_findings.json can list them)"""
+    from props import c18_tran as T
+    from props import c18_nas as N
+
+    n2p, _ = _mods()
+    masks = {k: int(v) for k, v in n2p.mkusetmask().items()}
+    b, q, e = masks["b"], masks["q"], masks["e"]
+    # (1) formtran(nas, 0, dof, gset=True) with a DOF named twice: the first of the two rows is all zero
+    #     (`tran[:, pvdof] = np.eye(len(pvdof))`: the later column assignment wins)
+    nas = {"selist": [[0, 0]], "uset": {"0": [[1, d, b] for d in range(1, 7)] + [[2, 0, q]]}, "dnids": {}, "maps": {}, "upids": {}}
+    plain = {"nas": nas, "mats": {}, "parent": {}, "expected_upa": {}}
+    _oracle_tran(ctx, dict(plain, what="formtran", se=0, dof=[[1, 12], [1, 2], [2, 0]], gset=True))
+    # (2) _formtran_0 through nas['pha'] with an extra point (e-set) in front of a-set DOF: positions within the
+    #     g-set are used as rows of the whole table (`iddof[a]`), the request is answered with RuntimeError
+    nas = {"selist": [[0, 0]], "uset": {"0": [[1, 0, e]] + [[2, d, b] for d in range(1, 7)] + [[3, 0, q]]},
+           "dnids": {}, "maps": {}, "upids": {}}
+    pha = {"0": {"shape": [7, 2], "data": [float(v) for v in range(14)]}}
+    plain = {"nas": nas, "mats": {"pha": pha}, "parent": {}, "expected_upa": {}}
+    _oracle_tran(ctx, dict(plain, what="formtran", se=0, dof=[[2, 1], [3, 0]], gset=False))
+    ctx.count("oracle:finding-probes", 2)
 
 
 def _corpus(ctx):
@@ -2222,6 +2349,60 @@ def search(ctx, hints):
         for s_, exp in info["expected_upq"].items():
             _oracle_nas(ctx, {"nas": plain, "sedn": s_, "expected": exp, "style": info["style"]})
             ctx.count("oracle:upqsetpv")
+    # base stream 2d: formtran / formulvs / formdrm / addulvs against the defining relations of the stored matrices,
+    # usetprt against the documented membership
+    from props import c18_tran as T
+    for it in range(ctx.pick(50, 500)):
+        nas, info = N.gen_nas(rng, deep=(3 + it // 8 % 2) if it % 8 == 0 else None, res_o=it % 3 != 0)
+        T.add_matrices(rng, nas, masks_, ["phg", "pha", "phg"][it % 3])
+        plain = {"nas": N.to_plain(nas), "mats": T.plain_mats(nas), "parent": {str(k): v for k, v in info["parent"].items()},
+                 "expected_upa": {str(k): v for k, v in info["expected_upa"].items()}}
+        ses = info["order"]
+        for se in [0] + rng.sample(ses, min(2, len(ses))):
+            py, _k, _sec, rt = T.gen_request(rng, nas["uset"][se], masks_)
+            if se == 0 and not isinstance(py[0], int):
+                # a DOF named twice (also through overlapping component lists) on the residual: see _probe_findings
+                seen_, py2 = set(), []
+                for i_, a_ in py:
+                    comps = "".join(ch for ch in str(a_) if (i_, int(ch)) not in seen_)
+                    seen_.update((i_, int(ch)) for ch in str(a_))
+                    if comps:
+                        py2.append([i_, int(comps)])
+                py = py2
+            _oracle_tran(ctx, dict(plain, what="formtran", se=se, dof=py, gset=se == 0 and rng.random() < 0.4))
+            ctx.count("oracle:formtran")
+        for c in ses:
+            path = [c]
+            while path[-1] != 0:
+                path.append(info["parent"][path[-1]])
+            sedn = rng.choice(path[1:])
+            _oracle_tran(ctx, dict(plain, what="formulvs", seup=c, sedn=sedn, keepcset=rng.random() < 0.7,
+                                   gset=sedn == 0 and rng.random() < 0.3))
+            ctx.count("oracle:formulvs")
+            if len(path) > 2:
+                ctx.count("oracle:formulvs-multilevel")
+        c = rng.choice(ses)
+        path = [c]
+        while path[-1] != 0:
+            path.append(info["parent"][path[-1]])
+        py, _k, _sec, rt = T.gen_request(rng, nas["uset"][c], masks_)
+        sedn = rng.choice(path)
+        _oracle_tran(ctx, dict(plain, what="formdrm", seup=c, sedn=sedn, dof=py, gset=sedn == 0 and rng.random() < 0.3))
+        ctx.count("oracle:formdrm")
+        _oracle_tran(ctx, dict(plain, what="addulvs", ses=rng.sample(ses, rng.randint(1, min(3, len(ses)))), keepcset=True))
+        ctx.count("oracle:addulvs")
+    for _ in range(ctx.pick(100, 1000)):
+        npts = rng.randint(1, 4)
+        ids = rng.sample(range(1, 30), npts)
+        rows = [[i, rng.choice([0, 123456])] for i in ids]
+        nas_ = [rng.choice(BASE) for _ in rows]
+        r0 = rng.random()
+        ps = "*" if r0 < 0.2 else None if r0 < 0.3 else ",".join(
+            (" " if rng.random() < 0.3 else "") + (x.upper() if rng.random() < 0.2 else x)
+            for x in [rng.choice(NAMED + USER + ["zz"]) for _ in range(rng.randint(1, 5))])
+        _oracle_usetprt(ctx, {"rows": rows, "nasset": nas_, "printsets": ps})
+        ctx.count("oracle:usetprt")
+    _probe_findings(ctx)
     # base stream 3: locate helpers
     for _ in range(ctx.pick(400, 4000)):
         _oracle_locate(ctx, "dups", {"v": _gen_intlist(rng, -3, 5, rng.choice([0, 1, 2, 5, 12])), "tol": rng.choice([0, 0, 1, 2])})
